@@ -157,7 +157,8 @@ class HSMCertificateV2ElementSGXAttestationKey(HSMCertificateV2Element):
             raise ValueError(f"Invalid key for HSM certificate element {self.name}")
         self._key = bytes.fromhex(element_map["key"])
 
-        if not is_nonempty_hex_string(element_map.get("auth_data")):
+        if element_map.get("auth_data") != "" and \
+                not is_nonempty_hex_string(element_map.get("auth_data")):
             raise ValueError(f"Invalid auth data for HSM certificate element {self.name}")
         self._auth_data = bytes.fromhex(element_map["auth_data"])
 
